@@ -113,6 +113,18 @@ pub fn check(t: &Trace<'_>, out: &mut CaseOut) -> bool {
             if (-2..=2).contains(&d) && p.pkt.is_some() {
                 out.key(format!("inbound-near-rx/{}", d));
             }
+            // ... and one that fills the buffer to the last byte (or nearly) is within the size the
+            // CONNECT advertised: it is taken like any other
+            if (-2..=0).contains(&d) && p.pkt.is_some() && !t.log.hostile && c.in_read > p.start {
+                out.count("inbound_filling_the_receive_buffer", 1);
+                let earlier_ok = c.in_pkts[..pi].iter().all(|q| q.ev_consumed.is_some());
+                let refused = t.log.ops.iter().find(|o| o.conn == Some(ci.idx) && matches!(o.outcome, Outcome::Err(ErrRepr::InvalidPacket)));
+                if p.ev_consumed.is_none() && earlier_ok && c.in_read < p.start + p.raw_len {
+                    if let Some(o) = refused {
+                        out.violations.push(viol("C14", "C14/inbound-within-advertised-size-rejected", format!("conn {}: a well-formed inbound packet of {} bytes (receive buffer and advertised Maximum Packet Size: {}) was given up after {} of its bytes: {} returned InvalidPacket", ci.idx, p.raw_len, t.log.cfg.rx, c.in_read - p.start, o.kind)));
+                    }
+                }
+            }
             if p.raw_len > t.log.cfg.rx && p.pkt.is_some() {
                 nontrivial = true;
                 out.count("oversize_inbound", 1);
